@@ -470,6 +470,12 @@ func misbehave(e *Env) {
 	s := startSession(e, o, func(l *simnet.Link) { l.ChunkMode = g.Intn(4); l.Window = []int{0, 0, 0, 16, 64, 300}[g.Intn(6)] })
 	e.Log.Keep = true
 	n := g.Range(1, 40)
+	// sometimes a background handler that never returns for ANY event, and many
+	// events: stuck invocations pile up for the whole run
+	stuckAlways := g.Pct(15)
+	if stuckAlways {
+		n = g.Range(30, 90)
+	}
 	verbs := []string{"FOO", "BAR"}
 	var evs []*evLine
 	for i := 0; i < n; i++ {
@@ -543,6 +549,15 @@ func misbehave(e *Env) {
 			} else {
 				s.c.Handle(v, fn)
 			}
+		}
+	}
+	if stuckAlways {
+		for k := g.Range(1, 2); k > 0; k-- {
+			s.c.HandleBG(verbs[g.Intn(2)], client.HandlerFunc(func(c *client.Conn, l *client.Line) {
+				e.S.Count("fault.bg-handler-blocks-forever")
+				blocked++
+				simrt.Block("blocked-handler", "a background handler that never returns", func() bool { return false })
+			}))
 		}
 	}
 	earlyEnd := g.W(6, 2, 2) // 0 none, 1 Close from a task, 2 server EOF
